@@ -62,7 +62,7 @@ func (c c08Case) program() *Program {
 	var files []*File
 	if len(c.IncOps) > 0 {
 		// without distinct namespaces both files would emit <Scope>Publisher into the same directory
-		inc := &File{Name: "inc_topics_def", Namespaces: []Namespace{{"*", "incpkg"}}}
+		inc := &File{Name: "inc_topics_def", Namespaces: []Namespace{{Scope: "*", Value: "incpkg"}}}
 		d := &Decl{Kind: "scope", Name: c.Scope, Prefix: c.IncPrefix}
 		for _, o := range c.IncOps {
 			d.Ops = append(d.Ops, Op{Name: o, Type: &Type{Kind: "base", Name: "string"}})
@@ -73,7 +73,7 @@ func (c c08Case) program() *Program {
 	f := &File{Name: "topics_def"}
 	if len(files) > 0 {
 		f.Includes = []int{0}
-		f.Namespaces = []Namespace{{"*", "rootpkg"}}
+		f.Namespaces = []Namespace{{Scope: "*", Value: "rootpkg"}}
 	}
 	f.Decls = append(f.Decls, &Decl{Kind: "struct", Name: "Evt", Fields: []Field{{ID: 1, Name: "v", Type: &Type{Kind: "base", Name: "string"}}}})
 	d := &Decl{Kind: "scope", Name: c.Scope, Prefix: c.Prefix}
